@@ -28,7 +28,39 @@ func init() {
 	})
 }
 
+// c09Huge: the complete set of 2^19 descendants of an ID (6 horizontal, 7 vertical levels finer) merged at the ID's own
+// zooms must give exactly the ID, and zooming them out must give exactly the ID (thorough tier only: ~1 GB, seconds).
+func c09Huge(c *core.Case) {
+	id := ref.ID{H: 9, X: 300 + c.I, Y: 200, V: 8, F: -3 - c.I}
+	s := id.Ext()
+	c.Tag("2^19-descendants")
+	c.NonTrivial()
+	c.KS(s)
+	c.Desc = func() any { return map[string]any{"id": s, "zoom_in": []int{6, 7}, "descendants": 1 << 19} }
+	in, err := integrate.ChangeExtendedSpatialIdsZoom([]string{s}, id.H+6, id.V+7)
+	c.Call()
+	if err != nil || len(in) != 1<<19 {
+		c.Fail("zoom-in-count", nil, "zoom-in of %s by (6,7) returned %d IDs (err %v), want %d", s, len(in), err, 1<<19)
+		return
+	}
+	mg, err := integrate.MergeExtendedSpatialIds(in, id.H, id.V)
+	c.Call()
+	if err != nil || len(mg) != 1 || mg[0] != s {
+		c.Fail("merge-descendants-2^19", nil, "merging the 2^19 descendants of %s at its own zooms gives %d IDs (first %v, err %v)", s, len(mg), trunc(mg, 3), err)
+		return
+	}
+	out, err := integrate.ChangeExtendedSpatialIdsZoom(in, id.H, id.V)
+	c.Call()
+	if err != nil || len(out) != 1 || out[0] != s {
+		c.Fail("zoom-in-out", nil, "zooming the 2^19 descendants of %s back out gives %v (err %v)", s, trunc(out, 3), err)
+	}
+}
+
 func runC09(c *core.Case) {
+	if c.Tier == "thorough" && c.I < 2 {
+		c09Huge(c)
+		return
+	}
 	r := c.R
 	hf, vf := genZoom(r), genZoom(r)
 	hc, vc := r.Range(0, hf), r.Range(0, vf)
